@@ -363,8 +363,17 @@ func Main() {
 	out := flag.String("out", "", "")
 	progress := flag.String("progress", "", "")
 	list := flag.Bool("list", false, "")
+	only := flag.String("only", "", "run this program only")
 	flag.Parse()
 	names := rt.Names()
+	if *only != "" {
+		if rt.Lookup(*only) == nil {
+			fmt.Fprintln(os.Stderr, "no such program:", *only)
+			os.Exit(2)
+		}
+		names = []string{*only}
+		*from, *count = 0, 1
+	}
 	if *list {
 		for _, n := range names {
 			fmt.Println(n)
